@@ -18,3 +18,20 @@ package htlc
 //@   ensures queue_frame: forall q:Int :: forall i:Bytes :: q != height ==> has(queue, q, i) == old(has(queue, q, i))
 //@   nopanic
 //@ end
+
+// Genesis import (C12): every listed contract is stored under its id, unchanged, and queued for its expiration height
+// (so that a re-imported open contract still expires), whether it is a plain HTLC or a cross-chain transfer.
+//@ func InitGenesis
+//@   property C12
+//@   modifies htlcs, queue, supplies, prm, prevTime
+//@   invariant #1 idx:   rangeindex >= 0 - 1 && rangeindex < len(data.Supplies)
+//@   invariant #1 frame: htlcs == old(htlcs) && queue == old(queue)
+//@   invariant #2 idx:   rangeindex >= 0 - 1 && rangeindex < len(data.Htlcs)
+//@   invariant #2 done:  forall j:Int :: 0 <= j && j <= rangeindex ==> has(htlcs, unhex(data.Htlcs[j].Id)) && get(htlcs, unhex(data.Htlcs[j].Id)) == data.Htlcs[j]
+//@                          && has(queue, data.Htlcs[j].ExpirationHeight, unhex(data.Htlcs[j].Id)) && hex(unhex(data.Htlcs[j].Id)) == data.Htlcs[j].Id
+//@   invariant #3 idx:   rangeindex >= 0 - 1
+//@   invariant #3 frame: forall j:Int :: 0 <= j && j < len(data.Htlcs) ==> has(htlcs, unhex(data.Htlcs[j].Id)) && get(htlcs, unhex(data.Htlcs[j].Id)) == data.Htlcs[j]
+//@                          && has(queue, data.Htlcs[j].ExpirationHeight, unhex(data.Htlcs[j].Id))
+//@   ensures imported: forall j:Int :: 0 <= j && j < len(data.Htlcs) ==> has(htlcs, unhex(data.Htlcs[j].Id)) && get(htlcs, unhex(data.Htlcs[j].Id)) == data.Htlcs[j]
+//@                          && has(queue, data.Htlcs[j].ExpirationHeight, unhex(data.Htlcs[j].Id))
+//@ end
